@@ -56,9 +56,11 @@ def process_signature(app, what, name, obj, options,
         obj = _util.safe_get(obj, object(), type(parent))
     try:
         sig = specifiers.signature(obj).evaluated()
-    except (TypeError, ValueError):
+    except (TypeError, ValueError, AttributeError):
         # inspect.signature raises ValueError if obj is callable but it can't
-        # determine a signature, eg. built-in objects
+        # determine a signature, eg. built-in objects; forwards_to_method
+        # raises AttributeError when the placeholder instance the member was
+        # bound to above lacks the attribute it forwards to
         return sig, return_annotation
     ret_annot = sig.return_annotation
     if ret_annot != sig.empty:
